@@ -986,7 +986,7 @@ func processValue(fset *token.FileSet, info *types.Info, call *ast.CallExpr) (*V
 	ok := true
 	ast.Inspect(call.Args[0], func(node ast.Node) bool {
 		switch expr := node.(type) {
-		case nil, *ast.ArrayType, *ast.BasicLit, *ast.BinaryExpr, *ast.ChanType, *ast.CompositeLit, *ast.Ellipsis, *ast.Field, *ast.FieldList, *ast.FuncType, *ast.Ident, *ast.IndexExpr, *ast.IndexListExpr, *ast.InterfaceType, *ast.KeyValueExpr, *ast.MapType, *ast.ParenExpr, *ast.SelectorExpr, *ast.SliceExpr, *ast.StarExpr, *ast.StructType, *ast.TypeAssertExpr:
+		case nil, *ast.ArrayType, *ast.BasicLit, *ast.BinaryExpr, *ast.ChanType, *ast.Comment, *ast.CommentGroup, *ast.CompositeLit, *ast.Ellipsis, *ast.Field, *ast.FieldList, *ast.FuncType, *ast.Ident, *ast.IndexExpr, *ast.IndexListExpr, *ast.InterfaceType, *ast.KeyValueExpr, *ast.MapType, *ast.ParenExpr, *ast.SelectorExpr, *ast.SliceExpr, *ast.StarExpr, *ast.StructType, *ast.TypeAssertExpr:
 			// Good!
 		case *ast.UnaryExpr:
 			if expr.Op == token.ARROW {
